@@ -278,6 +278,7 @@ func newShared(p uint32) *c18Shared {
 		"nb":  mustDec("-987654321098765432109876543210987654321012345.678"),
 		"n2":  mustDec("-44.1250"),
 		"g1":  mustDec("3E+1030"), "g2": mustDec("-7E+1100"), "g3": mustDec("11E+1200"), "g4": mustDec("5E-1050"), "g5": mustDec("9E+1400"), "g6": mustDec("-2E-1300"),
+		"f1": mustDec("3E+40"), "f2": mustDec("-7E-55"), "f3": mustDec("12E+90"),
 	}
 	s.init = s.dump()
 	s.initLocal = s.dumpLocal()
@@ -372,6 +373,18 @@ func formatCall(format string, ops ...string) c18Call {
 	}}
 }
 
+// textCall renders shared operands with Decimal.Text in the given format (the zero runs of 'f' are written by fmtF).
+func textCall(format byte, ops ...string) c18Call {
+	return c18Call{"Text(" + string(format) + ")", func(s *c18Shared) string {
+		var sb strings.Builder
+		for _, o := range ops {
+			sb.WriteString(s.ops[o].Text(format))
+			sb.WriteByte('|')
+		}
+		return sb.String()
+	}}
+}
+
 type c18Scenario struct {
 	Name    string
 	P       uint32
@@ -408,6 +421,7 @@ func c18Scenarios() []c18Scenario {
 			t(ctxCall2("Add", cAdd, "a", "g1"), ctxCall2("Sub", cSub, "g2", "t")),
 			t(ctxCall2("Rem", cRem, "g3", "y3"), ctxCall2("Add", cAdd, "g4", "a")),
 			t(ctxCall2("Sub", cSub, "t", "g5"), ctxCall2("Add", cAdd, "g6", "q"))}, true, 1, 1},
+		{"fixed-point text with long zero runs: %f(3E+40)||Text('f')(-7E-55, 12E+90)||%f(12E+90, -7E-55) (zero padding of 40-90 places written by fmtF)", 9, [][]c18Call{t(formatCall("%f", "f1")), t(textCall('f', "f2", "f3")), t(formatCall("%f|%f", "f3", "f2"))}, false, 1, 2},
 		{"exp||exp (shared operand, different destinations)", 9, [][]c18Call{t(ctxCall1("Exp", cExp, "q")), t(ctxCall1("Exp", cExp, "q"))}, true, 1, 1},
 	}
 }
